@@ -89,9 +89,60 @@ def ccall(c):
     return '(mkcall %s %s %s)' % (clist([cval(a) for a in c['args']]), cdict(c['kw']), copt(c['meta'], cdict))
 
 
+def cstr2(s):
+    """Coq string term for text that may contain tabs / newlines (cstr takes printable ASCII only)"""
+    if all(32 <= ord(c) < 127 for c in s):
+        return cstr(s)
+    parts, cur = [], ''
+    for ch in s:
+        if ch in '\t\n':
+            if cur:
+                parts.append(cstr(cur))
+                cur = ''
+            parts.append('TAB' if ch == '\t' else 'NL')
+        else:
+            cur += ch
+    if cur:
+        parts.append(cstr(cur))
+    return '(cat %s)' % clist(parts)
+
+
+def echo_expect(cmd):
+    """what /bin/sh prints for "echo w1 w2 .." (unquoted words) or "echo '...'" (one single-quoted argument)"""
+    rest = cmd.strip()
+    if not rest.startswith('echo'):
+        return None
+    rest = rest[4:].strip()
+    if "'" in rest:
+        if len(rest) >= 2 and rest[0] == "'" and rest[-1] == "'" and "'" not in rest[1:-1]:
+            return rest[1:-1] + '\n'
+        return None
+    return ' '.join(rest.split()) + '\n'
+
+
+# the handler under test in the second run of an external case: label -> what is passed as process_result
+#   none            default handler, no dtype               str:<d>  dtype given as a string (canonical name or alias)
+#   np:<d>          dtype given as numpy.dtype              callable user handler on the raw stdout (stdout=True), sep argument ignored
+WIDE_PARSE = ['none', 'none', 'none', 'str:int32', 'str:int64', 'str:float64', 'str:uint32', 'str:uint64', 'str:i8', 'str:int', 'str:float',
+              'str:i4', 'str:<f8', 'np:int32', 'np:int64', 'np:float64', 'np:uint64', 'callable', 'callable']
+MEDIUM_PARSE = ['str:float32', 'np:float32', 'str:<f4', 'str:f']                       # exact up to 2**24: no seeds
+SMALL_PARSE = ['str:int8', 'str:uint8', 'str:int16', 'np:int16', 'np:uint8', 'str:uint16', 'str:float16', 'np:int8']   # values 0..99 only
+SEPS = [' ', ' ', ' ', ',', ',', ',', ';', ';', '\t', ', ', '::', ' ; ', '|', '  ']
+DECOY_SEP = '#'
+
+
+def parse_request(label):
+    """(object passed as process_result or None for none/callable, canonical dtype name or None)"""
+    if label in (None, 'none', 'callable'):
+        return None, None
+    how, spec = label.split(':', 1)
+    name = np.dtype(spec).name
+    return (np.dtype(spec) if how == 'np' else spec), name
+
+
 def ctok(t):
     if t[0] == 'L':
-        return '(Lit %s)' % cstr(t[1])
+        return '(Lit %s)' % cstr2(t[1])
     if t[0] == 'P':
         return '(Pos %s)' % cnat(t[1])
     return '(Key %s)' % cstr(t[1])
@@ -185,11 +236,22 @@ class C18(PropCheck):
             'checked against the per-row specification of ITS OWN inputs and the caller\'s constants object compared with its initial contents '
             'after every call; '
             '(b) external_operation with echo templates over positional/keyword/meta/seed inputs, direct, vectorized and inside a model with '
-            'uses_meta on/off, stdout parsed with None/int32/int64/float64. Non-trivial = at least 2 rows and at least one non-constant and one '
-            'constant input (vectorize), or at least one placeholder and a seed in at least 2 rows (external), or (history) at least 2 '
+            'uses_meta on/off; (b2) the stdout handler explored jointly over process_result in {None, dtype as str (canonical name or alias '
+            'i4/i8/int/float/f/<f4/<f8), numpy.dtype, a user callable on the raw stdout with a decoy sep} x element types int8..int64, '
+            'uint8..uint64, float16/32/64 x sep in {" " (given or left at its default), ",", ";", tab, ", ", "::", " ; ", "|", two blanks} '
+            'x 1-5 fields per row (integers, negative, leading zero, dyadic decimals for float types, digits glued to a substituted value) '
+            'x joiner = the separator, its non-white core, or the core padded with blanks x quoted/unquoted echo argument x single / '
+            'vectorized / model run; malformed stream: fields joined by ANOTHER separator or a field that is no literal of the requested '
+            'type (ValueError expected); every returned row compared in Coq with parse_stdout(requested type, sep, THAT row\'s observed '
+            'stdout) and its dtype with the request. Non-trivial = at least 2 rows and at least one non-constant and one '
+            'constant input (vectorize), or at least one placeholder and (a seed in at least 2 rows or a parsed row of at least 2 fields) '
+            '(external), or (history) at least 2 '
             'completed calls one of which has at least 2 rows and either an unmasked position that is a non-array in one call and an array in '
             'another or two different batch lengths; distinct by full input')
-    trusted = ('subprocess (/bin/sh echo) and numpy.fromstring text parsing are runtime behaviour: sampled by the correspondence only',
+    trusted = ('subprocess (/bin/sh echo) and numpy.fromstring text parsing are runtime behaviour: sampled by the correspondence only '
+               '(model: echo_stdout, parse_stdout; outputs with empty fields / trailing separators / nothing printed, separators made '
+               'of characters that can occur in a number, values outside the range of the requested integer type and non-native byte '
+               'orders are not generated: numpy returns filler / wrapped / byte-swapped values there instead of raising)',
                'numpy RandomState(seed).randint(2**31, size=K, dtype=uint32) as the stream fed to the C15 seed model',
                'external-command inputs restricted to ints and shell-safe strings (str() rendering modelled for those only)')
 
@@ -460,12 +522,107 @@ class C18(PropCheck):
             toks.append(['L', str(r.randint(0, 99))])
         return toks
 
+    def gen_sep_template(self, arity, keys, sep, parse, small=False, big_ok=True):
+        """echo of 1-5 numeric fields joined by the separator; returns (tokens, shape of the output: wellformed / mismatch / badfield).
+        [keys] = keyword inputs with integer values.  Malformed stream: fields joined by ANOTHER separator, or a field that is not a
+        literal of the requested type (word, decimal for an integer dtype, negative for an unsigned one): a clean ValueError is expected"""
+        r = self.rng
+        core = sep.strip()
+        _, name = parse_request(parse)
+        floaty = name is None or name.startswith('float')
+        unsigned = name is not None and name.startswith('uint')
+        nf = r.choice([1, 2, 2, 2, 3, 3, 4, 5])
+        shape = 'wellformed'
+        c = r.random()
+        if c < 0.08 and nf >= 2:
+            shape = 'mismatch'
+        elif c < 0.16:
+            shape = 'badfield'
+        bad_at = r.randrange(nf) if shape == 'badfield' else None
+        hi = 99 if small else 999
+        fields = []
+        for j in range(nf):
+            if j == bad_at:
+                opts = ['word']
+                if not floaty:
+                    opts += ['decimal', 'decimal']
+                if unsigned:
+                    opts += ['negative', 'negative']
+                o = r.choice(opts)
+                self.bump('ext:badfield=' + o)
+                fields.append([['L', {'word': r.choice(['abc', 'x7', '7x', '1_0']), 'decimal': '%d.5' % r.randint(0, 9),
+                                      'negative': '-%d' % r.randint(1, 99)}[o]]])
+                continue
+            c = r.random()
+            if arity == 0 and 0.3 <= c < 0.65 and r.random() < 0.9:
+                c = 0.1 if not keys else 0.8                     # no positional input to refer to
+            if c < 0.3 or (arity == 0 and not keys and c < 0.9):
+                lit = str(r.randint(0, hi))
+                c2 = r.random()
+                if c2 < 0.25 and not unsigned:
+                    lit = '-' + str(r.randint(1, hi))
+                elif c2 < 0.5 and floaty:
+                    lit = r.choice(['', '-']) + '%d.%s' % (r.randint(0, 63), r.choice(['5', '25', '75', '125', '0', '50', '375']))
+                elif c2 < 0.55:
+                    lit = '0' + lit
+                f = [['L', lit]]
+            elif c < 0.65:
+                f = [['P', r.randint(0, arity - 1) if arity and r.random() < 0.95 else arity + r.randint(0, 1)]]
+            else:
+                f = [['K', r.choice(keys) if keys and r.random() < 0.95 else r.choice(['zz', 'seed', 'index_in_batch'] if big_ok else ['zz'])]]
+            if (f[0][0] == 'P' or (f[0][0] == 'K' and f[0][1] not in ('seed', 'master_seed'))) and r.random() < 0.12 and not small:
+                f.insert(0, ['L', str(r.randint(1, 9))])          # digits glued to a substituted value: still one field
+            fields.append(f)
+        # what stands between two fields
+        if shape == 'mismatch':
+            others = [x for x in [',', ';', '|', '::', ' ', ':'] if x.strip() != core and not (x == ':' and core != '::')]
+            joiner = r.choice(others)
+        elif core == '':
+            joiner = r.choice([sep, ' ', '  ', '\t', ' \t'])
+        else:
+            joiner = r.choice([sep, core, core, core, core + ' ', ' ' + core, ' ' + core + '  '])
+        toks = []
+        for j, f in enumerate(fields):
+            if j:
+                toks.append(['L', joiner])
+            toks.extend(f)
+        pad = r.random() < 0.15
+        if pad:
+            toks = [['L', ' ']] + toks + [['L', ' ']]            # white space around the whole line
+        quoted = any(ch in joiner for ch in ';|\t') or r.random() < 0.35
+        if quoted:
+            toks = [['L', "echo '"]] + toks + [['L', "'"]]
+        else:
+            toks = [['L', 'echo ']] + toks
+        # merge adjacent literals (the template is the same string; keeps the Coq term small)
+        out = []
+        for t in toks:
+            if out and t[0] == 'L' and out[-1][0] == 'L':
+                out[-1] = ['L', out[-1][1] + t[1]]
+            else:
+                out.append(list(t))
+        self.bump('ext:sep=%r' % sep)
+        self.bump('ext:fields=%d' % nf)
+        self.bump('ext:output=' + shape)
+        self.bump('ext:quoted=%s' % quoted)
+        self.bump('ext:joiner=' + ('sep' if joiner == sep else 'core' if joiner == core else 'mismatch' if shape == 'mismatch' else 'padded'))
+        return out, shape
+
+    def gen_parse(self, allow_medium, allow_small):
+        r = self.rng
+        c = r.random()
+        if allow_small and c < 0.2:
+            return r.choice(SMALL_PARSE), True
+        if allow_medium and c < 0.4:
+            return r.choice(MEDIUM_PARSE), False
+        return r.choice(WIDE_PARSE), False
+
     def gen_ext_direct(self):
         r = self.rng
         vectorized = r.random() < 0.6
         n = r.choice([1, 2, 3, 4, 6]) if vectorized else 1
         arity = r.choice([0, 1, 2, 3])
-        numeric = r.random() < 0.6
+        numeric = r.random() < 0.7
         inputs = []
         for _ in range(arity):
             kinds = ['int', 'nint'] + (['arr1'] * 3 if vectorized else []) + ([] if numeric else ['str', 'arrs' if vectorized else 'str'])
@@ -496,19 +653,44 @@ class C18(PropCheck):
                 meta.append(['index_in_batch', r.choice([0, 1, 2, 5] if numeric else [0, 1, 2, 5, None])])
         keys = [k for k, _ in kw] + [k for k, _ in (meta or [])] + (['seed'] if rs is not None else []) \
             + (['index_in_batch'] if vectorized and meta is not None else [])
-        toks = self.gen_template(arity, keys, numeric)
+        pr, sep, shape = None, ' ', None
+        if numeric:
+            pr, small = self.gen_parse(True, True)
+            sep = r.choice(SEPS)
+            if small:
+                # 8/16-bit element types: every printed value stays in 0..99 (numpy's C cast wraps silently otherwise)
+                def clamp(v):
+                    if v[0] == 'arr':
+                        return ['arr', [[x % 100 for x in v[1][0]], v[1][1]]]
+                    return [v[0], v[1] % 100]
+                inputs = [clamp(v) for v in inputs]
+                kw = [[k, clamp(v)] for k, v in kw]
+                ikeys = [k for k, _ in kw if k != 'seed']
+                big_ok = False
+            else:
+                ikeys = list(keys)
+                big_ok = parse_request(pr)[1] != 'float32'
+                if not big_ok:
+                    ikeys = [k for k in ikeys if k != 'seed']           # seeds exceed 2**24
+            if r.random() < 0.25 and sep == ' ' and not small and parse_request(pr)[1] != 'float32':
+                toks, shape = self.gen_template(arity, keys, True), 'wellformed'      # the wave-1 family: unquoted, runs of blanks
+                self.bump('ext:sep=%r' % sep)
+                self.bump('ext:output=legacy')
+            else:
+                toks, shape = self.gen_sep_template(arity, ikeys, sep, pr, small, big_ok)
+        else:
+            toks = self.gen_template(arity, keys, numeric)
         consts = None
         if vectorized and r.random() < 0.3 and arity:
             consts = sorted(r.sample(range(arity), r.randint(0, arity)))
             # a marked array would be formatted with numpy's repr: keep marked inputs scalar
             consts = [i for i in consts if inputs[i][0] != 'arr']
-        pr = r.choice(['none', 'int32', 'int64', 'float64', 'npint32']) if numeric else None
         self.bump('ext:direct:' + ('vectorized' if vectorized else 'single'))
         self.bump('ext:parse=%s' % pr)
         self.bump('ext:meta=%s' % (meta is not None))
         return dict(kind='ext', mode='direct', vectorized=vectorized, toks=toks, inputs=inputs, constants=consts,
-                    batch_size=r.choice([None, n]) if vectorized else None, kw=kw, rs=rs, meta=meta, parse=pr,
-                    auto=r.random() < 0.3)
+                    batch_size=r.choice([None, n]) if vectorized else None, kw=kw, rs=rs, meta=meta, parse=pr, sep=sep, shape=shape,
+                    sep_arg=not (sep == ' ' and r.random() < 0.5), auto=r.random() < 0.3)
 
     def gen_ext_model(self):
         r = self.rng
@@ -519,16 +701,27 @@ class C18(PropCheck):
         keys = ['seed'] + (['batch_index', 'submission_index', 'master_seed', 'index_in_batch'] if uses_meta else [])
         if uses_meta and not numeric:
             keys.append('model_name')
-        toks = self.gen_template(len(parents), keys, numeric)
+        pr, sep, shape = None, ' ', None
+        if numeric:
+            pr, _ = self.gen_parse(False, False)            # seeds and randint priors: wide element types only
+            sep = r.choice(SEPS)
+            ikeys = [k for k in keys if k != 'model_name']
+            if r.random() < 0.25 and sep == ' ':
+                toks, shape = self.gen_template(len(parents), keys, True), 'wellformed'
+            else:
+                toks, shape = self.gen_sep_template(len(parents), ikeys, sep, pr)
+            self.bump('ext:model:parse=%s' % pr)
+        else:
+            toks = self.gen_template(len(parents), keys, numeric)
         self.bump('ext:model:uses_meta=%s' % uses_meta)
         return dict(kind='ext', mode='model', vectorized=True, toks=toks, parents=parents, n=n, uses_meta=uses_meta,
-                    seed=r.randrange(2 ** 31), parse=r.choice(['none', 'int64', 'float64']) if numeric else None, auto=False,
+                    seed=r.randrange(2 ** 31), parse=pr, sep=sep, shape=shape, sep_arg=not (sep == ' ' and r.random() < 0.5), auto=False,
                     constants=None)
 
     def generate(self):
         q = self.tier == 'quick'
         plan = [(self.gen_vec_direct, 420 if q else 6000), (self.gen_vec_model, 60 if q else 700),
-                (self.gen_ext_direct, 130 if q else 1500), (self.gen_ext_model, 30 if q else 350)]
+                (self.gen_ext_direct, 300 if q else 4000), (self.gen_ext_model, 40 if q else 500)]
         for g, k in plan:
             for _ in range(k):
                 yield g()
@@ -734,12 +927,25 @@ class C18(PropCheck):
                             inputs=[canon(x) for x in inputs], keys=sorted(kwinputs)))
             return np.array([len(log) - 1])
 
+        sep = case.get('sep', ' ')
+        hlog = []
+
+        def handler(out, *inputs, **kwinputs):
+            """a user's own result handler on the raw standard output (stdout=True): it splits on ITS separator"""
+            hlog.append([type(out).__name__, out.decode() if isinstance(out, bytes) else repr(out), [canon(x) for x in inputs], sorted(kwinputs)])
+            return np.fromstring(out, sep=sep)
+
         def mk(parse):
             if parse == 'inspect':
                 return elfi.tools.external_operation(template, process_result=inspect, stdout=False,
                                                      subprocess_kwargs=dict(stdout=subprocess.PIPE))
-            pr = {'none': None, 'int32': 'int32', 'int64': 'int64', 'float64': 'float64', 'npint32': np.dtype('int32')}[parse]
-            return elfi.tools.external_operation(template, process_result=pr)
+            if parse == 'callable':
+                # "If you specify your own callable to process_result this value [sep] has no effect"
+                return elfi.tools.external_operation(template, process_result=handler, sep=DECOY_SEP)
+            pr, _ = parse_request(parse)
+            if not case.get('sep_arg'):
+                return elfi.tools.external_operation(template, process_result=pr)          # sep left at its default (' ')
+            return elfi.tools.external_operation(template, process_result=pr, sep=sep)
 
         res = dict(template=template, error=None)
 
@@ -789,13 +995,21 @@ class C18(PropCheck):
             log2 = list(log)
             oc2, val2 = call(mk(case['parse']))
             del log[len(log2):]
-            if oc2 != 'ok':
+            res['handler_log'] = list(hlog) if case['parse'] == 'callable' else None
+            if oc2 == 'ValueError':
+                res['parsed'] = 'ValueError'
+                res['parse_error'] = str(val2)
+            elif oc2 != 'ok':
                 res['parsed'] = 'second run: %s %s' % (oc2, val2)
             else:
                 val2 = np.asarray(val2)
-                res['parsed_dtype'] = str(val2.dtype)
-                rows = val2 if case['vectorized'] else val2[None, :]
-                res['parsed'] = [[x for x in row.tolist()] for row in rows] if rows.ndim == 2 else 'shape %s' % (rows.shape,)
+                res['parsed_dtype'] = val2.dtype.name
+                res['parsed_native'] = bool(val2.dtype.isnative)
+                rows = val2 if case['vectorized'] else (val2[None, :] if val2.ndim == 1 else val2)
+                if rows.ndim == 2 and rows.dtype.kind in 'iuf' and np.all(np.isfinite(rows)):
+                    res['parsed'] = [[[fr.numerator, fr.denominator] for fr in (fractions.Fraction(x) for x in row.tolist())] for row in rows]
+                else:
+                    res['parsed'] = 'second run returned dtype %s shape %s: %r' % (val2.dtype, val2.shape, val2.tolist())
         # inputs of the model side that only the run knows (model mode)
         if case['mode'] == 'model':
             if log:
@@ -821,6 +1035,14 @@ class C18(PropCheck):
         else:
             out = self.run_ext(case)
             self.bump('outcome:ext:%s:%s' % (case['mode'], out['outcome']))
+            if case.get('parse'):
+                pk = 'not-run' if out['parsed'] is None else 'rows' if isinstance(out['parsed'], list) else \
+                    'ValueError' if out['parsed'] == 'ValueError' else 'other'
+                self.bump('ext:parse_run=' + pk)
+                if pk == 'rows':
+                    self.bump('ext:parsed_fields_per_row=%d' % max(len(p) for p in out['parsed']))
+                    self.bump('ext:parsed:sep=%r:%s' % (case.get('sep'), 'default' if case['parse'] == 'none' else
+                                                        'callable' if case['parse'] == 'callable' else 'typed'))
         return out
 
     # -- python-side clauses ---------------------------------------------------------------------
@@ -888,15 +1110,25 @@ class C18(PropCheck):
         # ext
         if out['outcome'] == 'ok':
             for row in out['rows']:
-                exp = ' '.join(row['cmd'].split()[1:]) + '\n'
+                exp = echo_expect(row['cmd'])
                 if row['stdout'] != exp:
                     bad.append(('echo_runtime', 'stdout %r is not the echo of %r' % (row['stdout'], row['cmd'])))
-            if isinstance(out['parsed'], str):
-                bad.append(('parse_run', out['parsed']))
-            elif out['parsed'] is not None:
-                want = {'none': 'float64', 'int32': 'int32', 'int64': 'int64', 'float64': 'float64', 'npint32': 'int32'}[case['parse']]
-                if out['parsed_dtype'] != want:
+            if isinstance(out['parsed'], str) and out['parsed'] != 'ValueError':
+                bad.append(('parse_run', out['parsed']))           # neither an array of numbers nor a ValueError
+            elif isinstance(out['parsed'], list):
+                want = parse_request(case['parse'])[1] or 'float64'
+                if out['parsed_dtype'] != want or not out['parsed_native']:
                     bad.append(('parse_dtype', 'parsed stdout has dtype %s, requested %s' % (out['parsed_dtype'], want)))
+                if len(out['parsed']) != len(out['order']):
+                    bad.append(('parse_rows', 'the run with the stdout handler returned %d rows, the inspected run %d'
+                                % (len(out['parsed']), len(out['order']))))
+            if out.get('handler_log') is not None and out['parsed'] is not None:
+                # a user handler (stdout=True) is given the raw standard output of each row's command, in row order
+                seen = [h[1:] for h in out['handler_log']]
+                want = [[out['rows'][k]['stdout'], out['rows'][k]['inputs'], out['rows'][k]['keys']] for k in out['order'] if 0 <= k < len(out['rows'])]
+                if any(h[0] != 'bytes' for h in out['handler_log']) or (isinstance(out['parsed'], list) and seen != want):
+                    bad.append(('handler_stdout', 'the user handler (stdout=True) was called with (type, stdout, inputs, keywords) %r; the commands '
+                                'printed / were given %r' % (out['handler_log'], want)))
         return bad[:3]
 
     def nontrivial(self, case, out):
@@ -920,7 +1152,11 @@ class C18(PropCheck):
                     return None
         else:
             seeds = [r['seed'] for r in out['rows'] if r['seed'] is not None]
-            if len(seeds) < 2 or not any(t[0] != 'L' for t in case['toks']):
+            if not any(t[0] != 'L' for t in case['toks']):
+                return None
+            # a seed in two rows, or a parsed standard output of at least two fields
+            two_fields = isinstance(out.get('parsed'), list) and any(len(p) >= 2 for p in out['parsed'])
+            if len(seeds) < 2 and not two_fields:
                 return None
         return json.dumps(case, sort_keys=True)
 
@@ -966,17 +1202,17 @@ class C18(PropCheck):
                [v[1][0] for k, v in (meta or []) if k == 'index_in_batch' and v[0] == 'N']
         rs = copt(word0, lambda w: clist([cn(x) for x in self.stream(w, max([n_rows] + idxs) + 1)]))
         if oc == 'ok':
-            parsed = out['parsed'] if isinstance(out['parsed'], list) else None
+            parsed = out['parsed']
             obs = []
             for j, k in enumerate(out['order']):
-                row = out['rows'][k] if 0 <= k < len(out['rows']) else dict(cmd='unmatched', seed=None)
+                row = out['rows'][k] if 0 <= k < len(out['rows']) else dict(cmd='unmatched', seed=None, stdout='')
                 p = None
-                if parsed is not None and j < len(parsed):
-                    p = parsed[j]
-                    if any(float(x) != int(x) for x in p):
-                        p = [-1]
-                    p = [int(x) for x in p]
-                obs.append('(OCmd %s %s %s)' % (cstr(row['cmd']), copt(row['seed'], cn), copt(p, lambda l: clist([cz(x) for x in l]))))
+                if isinstance(parsed, list) and j < len(parsed):
+                    p = '(mkpout %s (Some (%s, %s)))' % (cstr2(row['stdout']), cstr(out['parsed_dtype']),
+                                                         clist(['(%s, %d%%positive)' % (cz(a), b) for a, b in parsed[j]]))
+                elif parsed == 'ValueError':
+                    p = '(mkpout %s None)' % cstr2(row['stdout'])
+                obs.append('(OCmd %s %s %s)' % (cstr2(row['cmd']), copt(row['seed'], cn), copt(p, lambda x: x)))
             impl = '(Some %s)' % clist(obs)
         elif oc == 'ValueError':
             impl = 'None'
@@ -993,9 +1229,10 @@ class C18(PropCheck):
         if inputs is None:
             return None
         return ('[CExt {| e_toks := %s; e_inputs := %s; e_constants := %s; e_batch_size := %s; e_vectorized := %s; e_kw := %s; '
-                'e_meta := %s; e_rs := %s; e_first_only := %s; e_impl := %s |}]'
+                'e_meta := %s; e_rs := %s; e_sep := %s; e_req := %s; e_first_only := %s; e_impl := %s |}]'
                 % (clist([ctok(t) for t in case['toks']]), clist([cval(x) for x in inputs]), cconst, copt(bs, cnat),
-                   cbool(case['vectorized']), cdict(kw), copt(meta, cdict), rs, cbool(first_only), impl))
+                   cbool(case['vectorized']), cdict(kw), copt(meta, cdict), rs, cstr2(case.get('sep') or ' '),
+                   copt(parse_request(case.get('parse'))[1], cstr), cbool(first_only), impl))
 
 
 if __name__ == '__main__':
